@@ -50,6 +50,8 @@ def concrete(line):
     toks = line.split()
     op, data, name = toks[2].split("/")
     full = os.path.join(workdir().encode(), unhx(name))
+    # a text may MENTION the file it is written to (`@@PATH@@`, e.g. a log that quotes an error message about itself)
+    data = data.replace(hx(b"@@PATH@@"), hx(full)) if data != "-" else data
     return " ".join(toks[:2] + ["/".join([op, data, hx(full)])])
 
 
